@@ -14,9 +14,14 @@ from harness import stmt_wire as SW
 META_PART = "statement layer: Coq model of declaration/assignment/control-flow translation (Lang/Stmt*.v) with a simulation theorem; tie = IR of the real parser vs model on generated programs; oracle = firmware trace vs CPython trace"
 
 FEATURE_SETS = [(), ("float",), ("funcs",), ("tuple",), ("float", "funcs", "tuple"), ("branch_first",),
-                # `continue` (repaired defect F-C01-continue-dropped): outside the Coq statement fragment (Lang/StmtAst.v has no
-                # continue constructor), so these programs reach the firmware-vs-CPython trace oracle only
-                ("continue",), ("continue", "float", "funcs", "tuple")]
+                # `continue` (repaired defect F-C01-continue-dropped): inside the Coq statement fragment (PContinue / NContinue /
+                # NReturn): these programs go through the IR and execution correspondences and the trace oracle
+                ("continue",), ("continue", "float", "funcs", "tuple"),
+                # // and % on signed operands and the augmented forms //= and %= (repaired defects F-C01-floordiv, F-C01-mod-sign:
+                # the region their guard used to exclude); expressions are opaque in the Coq statement model (shared Python
+                # semantics on both sides), so these programs are judged by the firmware-vs-CPython trace oracle and by the
+                # model-C-trace = firmware-trace correspondence
+                ("div",), ("div", "float", "funcs", "tuple")]
 
 WITNESSES = {
     "F-C01-continue-dropped": {
@@ -58,7 +63,7 @@ CORPUS = [
              ("write", "i1"), ("write", "i2"), ("assign", "i3", "0"), ("for", "k0", "5", [("assign", "i3", "(i3 + k0)")]),
              ("tuple", ["i4", "i5"], ["(i3 - 5)", "(i3 * 2)"]), ("write", "(i4 + i5)")],
      "main": [("assign", "i0", "(i0 + 1)"), ("if", [("(i1 < i0 < i2)", [("write", "i2")])], [("write", "i4")])]},
-    # `continue` (repaired; oracle only): the former witness; for-range (the C loop still advances its variable); while (the
+    # `continue` (repaired; inside the model): the former witness; for-range (the C loop still advances its variable); while (the
     # condition is re-tested); under nested ifs; in an else arm; in the inner of two loops; in the body of the main loop,
     # directly under an if, under nested ifs and inside a for loop of the main loop (there it continues the for loop only)
     {"pre": [("for", "k0", "4", [("if", [("(k0 == 2)", [("continue",)])], []), ("write", "k0")])], "main": None},
@@ -83,6 +88,15 @@ CORPUS = [
     # misplaced `continue`: rejected (ValueError), like a misplaced break
     {"pre": [("assign", "i0", "0"), ("if", [("(i0 == 0)", [("continue",)])], [])], "main": [("write", "i0")]},
     {"pre": [("assign", "i0", "0"), ("continue",), ("write", "i0")], "main": None},
+    # tuple assignment to declared names through temporaries: float swap, rotation of three, Fibonacci step in a for
+    # body, swaps in the main loop at body level and inside both arms of an if
+    {"pre": [("assign", "f0", "1.5"), ("assign", "f1", "2.25"), ("swap", "f0", "f1"), ("write", "f0"), ("write", "f1"),
+             ("assign", "i0", "1"), ("assign", "i1", "2"), ("assign", "i2", "3"), ("tuple", ["i0", "i1", "i2"], ["i1", "i2", "i0"]),
+             ("write", "(i0 * 100 + i1 * 10 + i2)"),
+             ("for", "k0", "3", [("tuple", ["i0", "i1"], ["i1", "(i0 + i1)"]), ("write", "i0")])],
+     "main": [("swap", "f0", "f1"), ("write", "f0"),
+              ("if", [("(i0 > i1)", [("swap", "i0", "i1")])], [("tuple", ["i1", "i2"], ["i2", "i1"])]),
+              ("write", "(i0 * 100 + i1 * 10 + i2)")]},
     # first assignment inside a loop / a branch, read afterwards (promotion)
     {"pre": [("assign", "i0", "2"), ("for", "k0", "3", [("assign", "i5", "(k0 + i0)")]), ("write", "i5"),
              ("assign", "w0", "0"), ("while", "(w0 < 2)", [("assign", "i6", "(w0 * 5)"), ("assign", "w0", "(w0 + 1)")]), ("write", "i6")],
@@ -376,6 +390,42 @@ def model_predicts_deviation(ctx, p, l):
     return not same_lines(model_lines(o[3][1], ee[1]), model_lines(o[2][1], ee[1]))
 
 
+def _kinds(body, acc):
+    for st in body or []:
+        acc.add(st[0])
+        if st[0] == "if":
+            for _, b in st[1]:
+                _kinds(b, acc)
+            _kinds(st[2], acc)
+        elif st[0] in ("while", "for"):
+            _kinds(st[-1], acc)
+    return acc
+
+
+def _has_tuple_assignment(p):
+    """a ("tuple", names, exprs) statement whose names were all assigned before it (not the declaration form)"""
+    seen = set()
+
+    def walk(body):
+        hit = False
+        for st in body or []:
+            if st[0] in ("assign", "read", "callassign"):
+                seen.add(st[1])
+            elif st[0] == "tuple":
+                if st[1] and all(n in seen for n in st[1]):
+                    hit = True
+                seen.update(st[1])
+            elif st[0] == "if":
+                for _, b in st[1]:
+                    hit = walk(b) or hit
+                hit = walk(st[2]) or hit
+            elif st[0] in ("while", "for"):
+                hit = walk(st[-1]) or hit
+        return hit
+    h1 = walk(p["pre"])
+    return walk(p["main"]) or h1
+
+
 def exec_correspondence(ctx, exe, items):
     """items: (src_body, program, annotator, pre, main, impl_result, loops, pair_result).
     Runs both sides of the statement model (Lang.StmtExec: Python expression semantics shared by
@@ -386,6 +436,11 @@ def exec_correspondence(ctx, exe, items):
         src, p, an, pre, main, r, l, pr = it
         if pr is None or pr["status"] not in ("equal", "DIFF", "py-undefined", "outside-guard:model-predicted-deviation"):
             st["skipped:" + (pr["status"] if pr else "none")] += 1
+            continue
+        if pr["status"] == "py-undefined" and leaves_int32(src, p["input"], l):
+            # CPython stopped on an int far outside the 32-bit range (e.g. repeated squaring over several passes: "Exceeds the
+            # limit for integer string conversion"): outside the guard, and the exact-Z model would compute the same giants
+            st["skipped:py-undefined-beyond-int32"] += 1
             continue
         ee = exec_exprs(an.exprs, const_inputs(p["input"]))
         if ee is None:
@@ -437,6 +492,11 @@ def exec_correspondence(ctx, exe, items):
         st["c-equal"] += 1
         if guard:
             st["guard:theorem-instance" if same_lines(cl, ml) else "guard:prediction-mismatch"] += 1
+            ks = _kinds(p["pre"], _kinds(p["main"], set()))
+            if "continue" in ks:
+                st["guard:with-continue"] += 1          # inside the proved guard since `continue` has a constructor
+            if "swap" in ks or _has_tuple_assignment(p):
+                st["guard:with-tuple-assignment-through-temporaries"] += 1
     return {"exec_cases": len(jobs), "exec_status": dict(st), "inside_proved_guard": inside}
 
 
@@ -631,11 +691,11 @@ def run_unit(ctx: C.Ctx):
         "C int = Z and device float = Q in the models: runs that leave the 32-bit / binary32 range are detected on the CPython side and excluded, not blamed"]
     return {
         "distribution": distribution, "outside_guard_samples": outside[:3],
-        "theorems": "C01_no_silent_drop, C01_break_guard (all programs transl accepts); C01_stmt_preserve_partial (simulation inside StmtGuard.guard_ok, modulo the shared expression semantics + SemFacts.sem_facts); C01_stmt_{range_bound,retype,promotion_reinit,loop_local_reinit}_refuted (witnesses = listed findings)",
-        "guard": "StmtGuard.guard_ok: every variable first assigned at top level of the setup part (global) or at top level of the `while True:` body before any read in that body (loop() local); later assignments keep the type label; tuple assignment only as the declaration of distinct new names at top level of the setup part; range() bound int-labelled, independent of the loop variable and of names the body assigns; loop variables fresh, unassigned, read only inside their loop; consistent expression ids.  Oracle guard (dynamic): no computed int leaves 32 bits (CPython run with every expression instrumented); a script whose deviation the extracted model itself predicts (outside guard_ok) is not blamed.  `continue` is inside the oracle's domain since the repair of the parser (programs with `continue` in for / while loops, under nested ifs and in the body of the main loop are generated and compared trace against trace) but OUTSIDE the Coq statement fragment: no theorem speaks about it",
-        "unmodelled": ["helper functions, lists, try/except, device objects (firmware-vs-CPython oracle only)", "`continue`: Lang/StmtAst.v has no constructor for it (a stated limit of the proved fragment); its translation (ContinueStmt -> `continue;`, at main-loop level -> `return;`, misplaced -> ValueError) is covered by the firmware-vs-CPython trace oracle and by C07's dispatch table only", "tuple swaps (temporaries) and hoisting (promotion) are in Lang.Transl and in the executable correspondence, but outside the simulation theorem's guard", "expression translation (unit C01_expr): the simulation is modulo a shared opaque expression semantics", "16-bit int of a real AVR"],
+        "theorems": "C01_no_silent_drop, C01_break_guard, C01_continue_guard, C01_continue_translation (all programs); C01_stmt_preserve_partial (simulation inside StmtGuard.guard_ok, modulo the shared expression semantics + SemFacts.sem_facts); C01_stmt_{range_bound,retype,promotion_reinit,loop_local_reinit}_refuted (witnesses = listed findings)",
+        "guard": "StmtGuard.guard_ok: every variable first assigned at top level of the setup part (global) or at top level of the `while True:` body before any read in that body (loop() local); later assignments keep the type label; tuple assignment either as the declaration of distinct new names at top level of the setup part, or (n >= 1) to names that are all declared already with unchanged types (swap / rotation / parallel assignment through block-local temporaries `__tmp_assign_k`, at any nesting level and in the main loop; mixed new/declared tuples and tuple declarations inside the main loop stay outside); declared names are not spelled like a temporary; range() bound int-labelled, independent of the loop variable and of names the body assigns; loop variables fresh, unassigned, read only inside their loop; consistent expression ids.  Oracle guard (dynamic): no computed int leaves 32 bits (CPython run with every expression instrumented); a script whose deviation the extracted model itself predicts (outside guard_ok) is not blamed.  `continue` is inside the guard (any placement the parser accepts: in for / while loops, under nested ifs, in the body of the main loop where it is `return;` from loop())",
+        "unmodelled": ["helper functions, lists, try/except, device objects (firmware-vs-CPython oracle only)", "hoisting (promotion: a name first assigned inside an if/while/for block) is in Lang.Transl and in the executable correspondence (IR and both traces), but outside the simulation theorem's guard; the three refuted witnesses (hoisted-decl-reinit, loop-local-reinit, retype) mark where the unchanged code stops preserving behaviour", "tuples mixing new and declared names, tuple declarations inside the main loop (loop() locals initialised from temporaries)", "expression translation (unit C01_expr): the simulation is modulo a shared opaque expression semantics", "16-bit int of a real AVR"],
         "evaluations": len(progs) + len(lsrcs) + ir["ir_cases"] + ir.get("exec_cases", 0), "list_programs_by_status": dict(lstats), "programs_by_status": dict(stats), "ir_correspondence": ir,
         "distinct_nontrivial": len({s for s, r in zip(srcs, res) if r["status"] == "equal" and len(r["py"]) >= 3}),
         "samples": [srcs[0][len(progen.HEADER):], srcs[-1][len(progen.HEADER):]],
-        "rule": "the witnesses of repaired defects first (F-C01-continue-dropped), then 19 hand-written boundary programs (break guard, nested break, empty range, elif chain, shadowing loop variable, tuple declarations reading re-assigned variables, promotion out of for/while/if; `continue` in for-range, in while, under nested ifs, in an else arm, in the inner of two loops, in the main loop body directly / under nested ifs / inside a for loop of the main loop, unconditional with dead code after it, misplaced = rejected) + seeded programs from harness/progen.py over 8 feature sets (core ints; +floats; +helper functions; +tuple/swap; all; first assignment inside branches; `continue`; `continue` + all), N in 0..3 loop passes, scripted analog/digital inputs (half of them constant per pin); every program: firmware trace vs CPython trace (oracle); programs without helper functions: IR of Lang.Transl.transl vs IR of the real parser; those with constant inputs additionally: extracted pexec vs CPython trace and extracted transl+cexec vs firmware trace (Lang.StmtExec), and the number of them inside the guard of C01_stmt_preserve_partial is recorded; non-trivial = both sides ran and the common trace has >= 3 events",
+        "rule": "the witnesses of repaired defects first (F-C01-continue-dropped), then 20 hand-written boundary programs (break guard, nested break, empty range, elif chain, shadowing loop variable, tuple declarations reading re-assigned variables, tuple assignments to declared names - float swap, rotation, Fibonacci step, swaps in the main loop -, promotion out of for/while/if; `continue` in for-range, in while, under nested ifs, in an else arm, in the inner of two loops, in the main loop body directly / under nested ifs / inside a for loop of the main loop, unconditional with dead code after it, misplaced = rejected) + seeded programs from harness/progen.py over 8 feature sets (core ints; +floats; +helper functions; +tuple/swap; all; first assignment inside branches; `continue`; `continue` + all), N in 0..3 loop passes, scripted analog/digital inputs (half of them constant per pin); every program: firmware trace vs CPython trace (oracle); programs without helper functions: IR of Lang.Transl.transl vs IR of the real parser; those with constant inputs additionally: extracted pexec vs CPython trace and extracted transl+cexec vs firmware trace (Lang.StmtExec), and the number of them inside the guard of C01_stmt_preserve_partial is recorded; non-trivial = both sides ran and the common trace has >= 3 events",
     }
